@@ -13,6 +13,7 @@
 import Keto.Model.Mapping
 import Keto.Proofs.MappingLemmas
 import Keto.Generated.Facts
+import Keto.Proofs.FactsTieUUID
 
 namespace Keto
 open Mapping
@@ -134,6 +135,13 @@ theorem C16_same_string_same_id (E₁ E₂ : Env) (hh : E₁.h = E₂.h) (T₁ T
     (mapStrings E₁ T₁ ss₁).1[i]? = (mapStrings E₂ T₂ ss₂).1[j]? := by
   rw [mapStrings_ids, mapStrings_ids]
   simp [List.getElem?_map, List.getElem?_eq_getElem hi, List.getElem?_eq_getElem hj, he, hh]
+
+/-- The model's `Env.h` is ONE function for the writing and the read-only mapper (which is what
+    `C16_same_string_same_id` quantifies over with `E₁.h = E₂.h`). In the code that is the fact, regenerated on
+    every run, that name UUIDs are derived at exactly one site, `uuid.NewV5(p.NetworkID(ctx), s)` with the
+    network of the request, and that the writing `MapStringsToUUIDs` obtains its ids by calling the read-only
+    method. -/
+theorem C16_one_derivation : Facts.uuidDerive = FactsTie.expectedUUIDDerive := FactsTie.uuidDerive_tie
 
 /-- **The read-only mapper never inserts**: every entry point that maps strings leaves the table
     exactly as it was (used by C17); the id→string direction has no table output at all. -/
